@@ -563,6 +563,6 @@ mod test {
 }
 
 #[cfg(kani)]
-mod verif_kani {
+pub(crate) mod verif_kani {
     include!(concat!(env!("IPA_VERIF_DIR"), "/kani/oprf_insecure.rs"));
 }
